@@ -360,6 +360,99 @@ def shard_api(arg):
     return sh
 
 
+class OsShim(object):
+    """stands in for the `os` module inside ecdsa.util: the DEFAULT entropy
+    source (os.urandom) answers from a script"""
+
+    def __init__(self, real_os, answers):
+        self._os = real_os
+        self.answers = list(answers)
+        self.i = 0
+
+    def urandom(self, n):
+        a = self.answers[self.i % len(self.answers)]
+        self.i += 1
+        return (a + b"\x00" * n)[:n]
+
+    def __getattr__(self, k):
+        return getattr(self._os, k)
+
+
+def default_source_case(rec, a1, a2, digest):
+    """no entropy argument: the key and the nonce come from os.urandom; with
+    os.urandom scripted they must be what randrange gives for those bytes"""
+    import os as real_os
+    import ecdsa.util as U
+    from ecdsa.keys import SigningKey
+    from ecdsa.ecdsa import RSZeroError
+    from ..ref import ref_ecdsa as re_
+    env = ecd.env_for(rec)
+    n = env.n
+    zeros = b"\x00" * 8
+
+    def via_explicit(ans):
+        it = iter([ans, zeros, zeros])
+        return U.randrange(n, lambda k: (next(it) + b"\x00" * k)[:k])
+
+    want_d, want_k = via_explicit(a1), via_explicit(a2)
+    saved = U.os
+    U.os = OsShim(real_os, [a1, zeros])
+    try:
+        sk = SigningKey.generate(env.curve)
+        d = int(sk.privkey.secret_multiplier)
+        U.os = OsShim(real_os, [a2, zeros])
+        try:
+            r, s = sk.sign_digest(digest, allow_truncate=True,
+                                  sigencode=lambda r, s_, o: (int(r), int(s_)))
+        except RSZeroError:
+            r = None
+    except Exception as e:
+        return ("default-source:raises", [want_d, want_k],
+                "%s: %s" % (type(e).__name__, e))
+    finally:
+        U.os = saved
+    if not 1 <= d <= n - 1:
+        return ("default-source:key-out-of-range", "[1,n-1]", d)
+    if d != want_d:
+        return ("default-source:key", want_d, d)
+    if r is None:
+        if env.ref_sign(env.e_of(digest), d, want_k) is not None:
+            return ("default-source:spurious-rszero", "signature",
+                    "RSZeroError")
+        return None
+    k = (env.e_of(digest) + r * d) * re_.modinv(s, n) % n
+    if k != want_k:
+        return ("default-source:nonce", want_k, k)
+    return None
+
+
+def shard_default(arg):
+    rec, firsts = arg
+    env = ecd.env_for(rec)
+    from ecdsa import util
+    size = run_randrange(util, env.n, [])[1]
+    sh = Shard()
+    for f in firsts:
+        answers = [bytes([f])] if size == 1 else \
+            [bytes([f, g]) for g in range(0, 256, 5)]
+        for a1 in answers:
+            for a2 in (answers[0], answers[-1], b"\x00" * size):
+                sh.n += 1
+                sh.nt += 1
+                bad = default_source_case(rec, a1, a2, b"\x3c\xa5")
+                if bad:
+                    sh.hist["fail:" + bad[0]] += 1
+                    sh.violation("default", bad[0],
+                                 dict(rec=rec, a1=a1, a2=a2,
+                                      digest=b"\x3c\xa5"), bad[1], bad[2])
+    sh.extra["executions"] = sh.n
+    sh.sample(dict(curve=[rec["p"], rec["a"], rec["b"]],
+                   source="os.urandom scripted (every first byte)",
+                   sequence="SigningKey.generate(curve); sk.sign_digest(d)"),
+              cap=1)
+    return sh
+
+
 def shard_fresh(arg):
     orders = arg
     from ecdsa import util
@@ -515,6 +608,9 @@ def replay(check, case):
         bad = api_case(case["rec"], case["seed"], case["digest"])
     elif check == "fresh":
         bad = fresh_bytes_case(util, case["n"], case["a1"], case["a2"])
+    elif check == "default":
+        bad = default_source_case(case["rec"], case["a1"], case["a2"],
+                                  case["digest"])
     elif check == "longread":
         bad = longread_case(util, case["n"], case["a1"], case["surplus"],
                             case["a2"])
@@ -592,6 +688,10 @@ def main(ctx):
         for ch in common.chunks(seeds, 4):
             jobs.append((shard_api, "keygen-then-sign-one-stream",
                          (t.rec(), ch, dgs)))
+    for t in pick[:4]:
+        for ch in common.chunks(list(range(256)), 4):
+            jobs.append((shard_default, "default-entropy-source",
+                         (t.rec(), ch)))
     so = list(range(2, ctx.pick(1025, 4097))) + [int(c.order) for c in
                                                  catalog.real_curves()] + \
         [(1 << k) + d for k in (16, 29, 32, 64, 128, 521) for d in (-1, 0, 1, 2)]
